@@ -8,3 +8,9 @@ import VibeProof.Props.C05
 #print axioms VibeProof.C05.C05_anti_not_in_counterexample
 #print axioms VibeProof.C05.C05_cross_swap
 #print axioms VibeProof.C05.C05_inner_join_is_filtered_cross
+#print axioms VibeProof.C05.C05_cross_assoc
+#print axioms VibeProof.C05.C05_pushdown_left
+#print axioms VibeProof.C05.C05_pushdown_right
+#print axioms VibeProof.C05.C05_conjunct_split
+#print axioms VibeProof.C05.C05_sql_equi_join_is_nested
+#print axioms VibeProof.C05.C05_hash_join_is_sql_join
